@@ -284,6 +284,14 @@ class Check:
                 self.proof_broken("tools/translate_proto.py: the protocol sources no longer have the table shape the "
                                   "translator accepts (%s): gen/ProtoTables.v cannot be regenerated" % e)
                 return False
+        if pid == "C10":
+            import translate_chunks
+            try:
+                translate_chunks.regenerate(REPO)
+            except (translate_chunks.ShapeError, OSError) as e:
+                self.proof_broken("tools/translate_chunks.py: ReadMem::chunks / ReadMemChunks::next / maximum_read_length no "
+                                  "longer have the shape the translator accepts (%s): gen/ReadChunks.v cannot be regenerated" % e)
+                return False
         if pid == "C15":
             import translate_code
             try:
